@@ -339,6 +339,27 @@ class Engine:
 
     # ------------------------------------------------------------------
     def verify(self, c, timeout_ms=10000, max_models=1):
+        """Verify one contract.  Contracts over code that iterates sets are verified under two iteration orders."""
+        out = self._verify(c, timeout_ms)
+        if c['meta'].get('set_order_dependent_result') and out.get('obligations'):
+            CTX.set_reversed = True
+            try:
+                recs = self.last_recs
+                second = self._verify(c, timeout_ms)
+                self.last_recs = recs
+            finally:
+                CTX.set_reversed = False
+            for o in second.get('obligations', []):
+                o['id'] = o['id'] + ' [reversed set iteration order]'
+                out['obligations'].append(o)
+            sts = [o['status'] for o in out['obligations']]
+            out['status'] = 'failed' if 'failed' in sts else ('undecided' if 'undecided' in sts else out['status'])
+            if second['status'] not in ('discharged', 'failed', 'undecided'):
+                out['status'] = second['status']
+                out['notes'] += second.get('notes', [])
+        return out
+
+    def _verify(self, c, timeout_ms=10000):
         """Verify one contract.  Returns a JSON-able dict."""
         t0 = time.time()
         CTX.counter = 0
